@@ -471,7 +471,12 @@ Qed.
 Definition deb2_argmin : R := Rpower (3 / 20) (4 / 3).
 
 Lemma deb2_argmin_in_box : 0 <= deb2_argmin <= 1.
-Proof. unfold deb2_argmin, Rpower. interval. Qed.
+Proof.
+  unfold deb2_argmin, Rpower. split; [left; apply exp_pos|].
+  rewrite <- exp_0. assert (ln (3 / 20) < 0) by (rewrite <- ln_1; apply ln_increasing; lra).
+  destruct (Rle_dec (4 / 3 * ln (3 / 20)) 0) as [H1|H1]; [|lra].
+  destruct H1 as [H1|H1]; [left; apply exp_increasing; exact H1 | rewrite H1; lra].
+Qed.
 
 Lemma deb2_min : forall n, (1 <= n)%nat ->
   bdef ref_deb2 (repeat deb2_argmin n) 0 0 /\ bval ref_deb2 (repeat deb2_argmin n) 0 0 = -1.
@@ -576,16 +581,19 @@ Definition ref_styblinski_tang : bexpr :=
 Lemma styblinski_tang_defined : forall l, bdef ref_styblinski_tang l 0 0.
 Proof. intro l. cbn [ref_styblinski_tang bdef bval]. repeat split; auto; try lra. apply allf_forall. tauto. Qed.
 
-Lemma styb_coord : forall t, -5 <= t <= 5 -> -783324 / 10000 <= t ^ 4 - 16 * t ^ 2 + 5 * t.
-Proof. intros t H. interval with (i_bisect t, i_taylor t). Qed.
+(* sum-of-squares certificate: p(t) + 78.3324 = (t^2 - 8.43)^2 + 0.86 (t + 250/86)^2 + 6e-5 *)
+Lemma styb_coord : forall t, -783324 / 10000 <= t ^ 4 - 16 * t ^ 2 + 5 * t.
+Proof.
+  intros t. pose proof (pow2_ge_0 (t ^ 2 - 843 / 100)). pose proof (pow2_ge_0 (t + 250 / 86)). nra.
+Qed.
 
-(* the true lower bound grows with n: -39.1662 per coordinate *)
-Lemma styblinski_tang_lower : forall l, in_box (-5) 5 l ->
+(* the true lower bound grows with n: -39.1662 per coordinate (for every real array, not only in the box) *)
+Lemma styblinski_tang_lower : forall l,
   bdef ref_styblinski_tang l 0 0 /\ -391662 / 10000 * INR (length l) <= bval ref_styblinski_tang l 0 0.
 Proof.
-  intros l B. split; [apply styblinski_tang_defined|]. cbn [ref_styblinski_tang bdef bval].
+  intros l. split; [apply styblinski_tang_defined|]. cbn [ref_styblinski_tang bdef bval].
   assert (INR (length l) * (-783324 / 10000) <= sumf (fun t => t ^ 4 - 16 * t ^ 2 + 5 * t) l).
-  { apply sumf_ge. intros t I. apply styb_coord. apply B. exact I. }
+  { apply sumf_ge. intros t I. apply styb_coord. }
   lra.
 Qed.
 
@@ -604,12 +612,11 @@ Proof.
 Qed.
 
 (* ... and is not attained for n = 1 *)
-Lemma styblinski_tang_doc_min_not_attained_n1 : forall t, -5 <= t <= 5 ->
+Lemma styblinski_tang_doc_min_not_attained_n1 : forall t,
   bdef ref_styblinski_tang [t] 0 0 /\ -78332 / 1000 < bval ref_styblinski_tang [t] 0 0.
 Proof.
-  intros t H. destruct (styblinski_tang_lower [t]) as [D L].
-  - intros u [E|[]]. subst. exact H.
-  - split; [exact D|]. simpl length in L. simpl INR in L. lra.
+  intros t. destruct (styblinski_tang_lower [t]) as [D L].
+  split; [exact D|]. simpl length in L. simpl INR in L. lra.
 Qed.
 
 (* ================================================================== schwefel *)
